@@ -51,3 +51,17 @@ package watchers
 //@   assert Pause(?)#1: [only-when-low] err != nil && !paused // C18: pauses while running exactly when free space ... is below the threshold
 //@   assert pause.Resume()#1: [only-when-enough] err == nil && paused // C18: resumes only once a check has passed again
 //@   loop for invariant [alternate] nPause == nResume + ite(paused, 1, 0) // the pipeline is paused by the watcher exactly while `paused`
+
+// The WARC-queue watchdog's pause state machine (C14): it pauses the pipeline only while it has
+// not paused it and resumes only while it has, so its Pause and Resume calls are matched and
+// alternate - this controller never issues a repeated Pause or an unmatched Resume of its own.
+//@ func StartWatchWARCWritingQueue$1
+//@   property C14
+//@   local nPause int = 0
+//@   local nResume int = 0
+//@   attr hooked @C14 Pause,Resume
+//@   after Pause(?)#1: nPause = nPause + 1
+//@   after pause.Resume()#1: nResume = nResume + 1
+//@   assert Pause(?)#1: [only-when-running] @C14 !paused // C14: the WARC-queue watchdog pauses only a pipeline it has not paused itself (no repeated Pause from this controller)
+//@   assert pause.Resume()#1: [only-when-paused] @C14 paused // C14: the WARC-queue watchdog resumes only after its own Pause (no unmatched Resume from this controller)
+//@   loop for invariant [alternate] @C14 nPause == nResume + ite(paused, 1, 0) // C14: pauses and resumes of the WARC-queue watchdog alternate
